@@ -152,7 +152,14 @@ Inductive rentry :=
 | RBase (e : entry).               (* any of the ways a side ends (or close() again, ...) *)
 Fixpoint remove_nat (x : nat) (l : list nat) : list nat :=
   match l with [] => [] | y :: t => if Nat.eqb x y then remove_nat x t else y :: remove_nat x t end.
-Definition rstep (P : lparams) (hr : bool) (refuses_closed : bool) (e : rentry) (s : rside) : rside :=
+(* three facts of the code the request layer rests on (generated: tools/pygen/stream.py, lifecycle.py, dispatch.py) *)
+Record rfacts := {
+  closed_stream_raises_eof : bool;     (* every use of a closed stream's descriptor raises EOFError: serve()/wait() on an ended side fail at once *)
+  cleanup_clears_callbacks : bool;     (* _cleanup clears the table of pending request callbacks *)
+  refuses_closed : bool                (* _async_request on a closed channel raises EOFError before registering anything (otherwise its write fails at once: same outcome) *)
+}.
+Definition std_rfacts : rfacts := {| closed_stream_raises_eof := true; cleanup_clears_callbacks := true; refuses_closed := true |}.
+Definition rstep (P : lparams) (hr : bool) (F : rfacts) (e : rentry) (s : rside) : rside :=
   match e with
   | RIssue id w =>
       (* a closed channel: refused up front (repaired tree) or the write fails at once - either way EOFError and nothing stays registered *)
@@ -166,12 +173,12 @@ Definition rstep (P : lparams) (hr : bool) (refuses_closed : bool) (e : rentry) 
   | RBase e0 =>
       let b := fst (step P hr e0 (base s)) in
       (* _cleanup clears the callback table *)
-      {| base := b; pend := if has_root b then pend s else []; got := got s; failed := failed s |}
+      {| base := b; pend := if has_root b then pend s else if cleanup_clears_callbacks F then [] else pend s; got := got s; failed := failed s |}
   end.
-Definition rruns (P : lparams) (hr rc : bool) (es : list rentry) (s : rside) : rside := fold_left (fun s e => rstep P hr rc e s) es s.
+Definition rruns (P : lparams) (hr : bool) (F : rfacts) (es : list rentry) (s : rside) : rside := fold_left (fun s e => rstep P hr F e s) es s.
 Inductive wait_result := WValue | WEofError | WKeepsWaiting.
-Definition wait_outcome (s : rside) (id : nat) : wait_result :=
+Definition wait_outcome (F : rfacts) (s : rside) (id : nat) : wait_result :=
   if existsb (Nat.eqb id) (got s) then WValue
   else if existsb (Nat.eqb id) (failed s) then WEofError
-  else if closed (base s) || negb (chan_open (base s)) then WEofError
+  else if closed (base s) || negb (chan_open (base s)) then (if closed_stream_raises_eof F then WEofError else WKeepsWaiting)
   else WKeepsWaiting.
